@@ -24,12 +24,13 @@ TABLES3 = ('{[n \\in {"a", "b", "c"} |-> CASE n = "a" -> va [] n = "b" -> vb [] 
 
 # for / case: a blank-terminated value in front of a for list, an alias whose name is a reserved word
 TABLES5 = ('{[n \\in {"a", "b", "in"} |-> CASE n = "a" -> va [] n = "b" -> vb [] OTHER -> vi] : '
-           'va \\in [val : {<<"for", "w", "in">>, <<"case", "w", "in">>, <<"w">>}, blank : BOOLEAN], '
+           'va \\in [val : {<<"for", "w", "in">>, <<"case", "w", "in">>, <<"case">>, <<"w", "$(", "b", ")", "w">>, <<"w">>}, blank : BOOLEAN], '
            'vb \\in [val : {<<"w">>, <<"a">>}, blank : BOOLEAN], vi \\in [val : {<<"w">>}, blank : {FALSE}]} '
            '\\cup {[n \\in {"a", "b"} |-> CASE n = "a" -> va [] OTHER -> vb] : '
            'va \\in [val : {<<"for", "w", "in">>, <<"case", "w", "in">>}, blank : BOOLEAN], vb \\in [val : {<<"w">>, <<"b", "w">>}, blank : BOOLEAN]}')
 SOURCES5 = ["a b w ; do b ; done", "a w b ; do w ; done", "a b ; do a ; done", "for w in b a ; do w ; done", "case w in b ) b ;; esac", "case b in w ) a ;; esac",
-            "a b ) w ;; esac", "a w ) b ;; b ) w ;; esac", "for b in w ; do w ; done", "for w in w ; do in ; done"]
+            "a b ) w ;; esac", "a w ) b ;; b ) w ;; esac", "for b in w ; do w ; done", "for w in w ; do in ; done",
+            "a b in w ) w ;; esac", "a w", "a", "w ; a b"]
 
 
 def gen(R, maxval, maxsrc, valtoks, srctoks, name, tables=None, sources=None):
